@@ -78,7 +78,7 @@ NS = ["a", "a-b"]
 NAMES = ["b", "c", "b-c", "b-x", "x"]
 HOSTS = ["x-y.ex", "y.ex", "c.ex", "h.ex"]
 SVCS = ["svc", "c-svc"]
-DEPS = ["ok", "nosecrets", "badsecrets", "noendpoints", "nopolicies"]
+DEPS = ["ok", "nosecrets", "badsecrets", "wrongsecrets", "noendpoints", "nopolicies"]
 
 
 def hx(s):
@@ -109,7 +109,7 @@ def gen(rng, tier):
     for plus in (0, 1):
         for ci, combo in enumerate(combos):
             for deps in DEPS:
-                if tier == "quick" and ci > 1 and deps not in ("ok", "nosecrets"):
+                if tier == "quick" and ci > 1 and deps not in ("ok", "nosecrets", "wrongsecrets"):
                     continue
                 objs = ";".join("fx:%s:%s:%s:%s" % (f, ns, pre, tag) for (ns, pre, tag) in combo for f in fx)
                 cases.append(dict(line="wf plus=%d deps=%s objs=%s" % (plus, deps, objs), tags=["fixture-set", deps, "instances=%d" % len(combo)]))
